@@ -85,6 +85,15 @@ def op_decode_bad_value(s):
         return s.decoder.decode({"item": {"v": "a", "n": "oops"}, "other": []}, M.Doc)
 
 
+def op_decode_generic(s):
+    # a generic element in a wildcard: recognised by the key set of AnyElement
+    return s.decoder.decode({"item": None, "other": [{"qname": "{urn:x}thing", "text": "w", "tail": None, "children": [], "attributes": {}}]}, M.Doc)
+
+
+def op_decode_derived(s):
+    return s.decoder.decode({"item": None, "other": [{"qname": "{urn:t}item", "type": None, "value": {"v": "a", "n": 1}}]}, M.Doc)
+
+
 def op_serialize_fwd(s): return s.fwd_serializer.render(FWD_OUTER(inner=FWD_INNER(x="q")))
 
 
@@ -104,6 +113,7 @@ OPS = {
     "parse_a": op_parse_a, "import_then_untyped": op_import_then_untyped,
     "decode_untyped": op_decode_untyped, "decode_wild": op_decode_wild, "parse_unknown_lenient": op_parse_unknown_lenient,
     "decode_union": op_decode_union, "decode_bad_value": op_decode_bad_value, "serialize_fwd": op_serialize_fwd,
+    "decode_generic": op_decode_generic, "decode_derived": op_decode_derived,
 }
 
 # harnesses forced to collide (threads x operation lists); warm = operations run before the threads start
@@ -125,6 +135,8 @@ HARNESS_SETS = {
     "cold-decode-union-vs-bad-value": dict(warm=[], threads=[["decode_union"], ["decode_bad_value"]]),
     # two serializers of one class on a cold context (per-class metadata is built and memoised on first use)
     "cold-serialize-x2": dict(warm=[], threads=[["serialize"], ["serialize_plain"]]),
+    # two decodes that both need the key sets of the generic element classes on a cold context
+    "cold-decode-generic-vs-derived": dict(warm=[], threads=[["decode_generic"], ["decode_derived"]]),
     # a serializer that resolves annotations through its own globalns next to ordinary use of the same context
     "cold-serialize-globalns-vs-parse": dict(warm=[], threads=[["serialize_fwd"], ["parse_a"]]),
 }
